@@ -664,7 +664,9 @@ class Sim(object):
         kind, _, meth = name.partition(".")
         a = ops[0]
         if meth in ("hash_str",):
-            return [str(a), hash(a), repr(a)]
+            # the hash value itself stays out of the event log: for values
+            # carrying strings it depends on PYTHONHASHSEED
+            return [str(a), hash(a) == hash(a), repr(a)]
         if kind == "tp":
             if meth == "add":
                 return a + ops[1]
